@@ -151,7 +151,8 @@ def gen_bs(rng: random.Random, tier: str) -> dict:
             kw.pop("knots")
         kw["lower_bound"], kw["upper_bound"] = int(lo), int(hi)
         xnew = [float(v) for v in (int(lo), int(hi), int(lo) + 1, max(int(lo), int(hi) - 1))] + ([float(int(hi) + 2), float(max(0, int(lo) - 1))] if kw["extrapolation"] != "raise" else [])
-    return {"as_int": as_int, "fn": "bs", "x": x, "kw": kw, "kind": kind, "nan_rows": nan_rows, "xnew": xnew, "path": rng.choice(["direct", "direct", "mm"]), "ext_as_enum": rng.random() < 0.25}
+    return {"as_int": as_int, "fn": "bs", "x": x, "kw": kw, "kind": kind, "nan_rows": nan_rows, "xnew": xnew, "path": rng.choice(["direct", "direct", "mm"]), "ext_as_enum": rng.random() < 0.25,
+            "bounds_reeval": rng.random() < 0.4}
 
 
 def kwtext(kw):
@@ -281,9 +282,15 @@ def judge_bs(case) -> Outcome:
     try:
         with quiet():
             st2 = {kk: (list(v) if isinstance(v, list) else v) for kk, v in st.items()}
-            Mn = call_spline(case, "bs", asint(xn), st2, kw)
-        if list(st2["knots"]) != t:
-            out.fail("c12.state_retrained", f"{tag}: knots changed on reuse")
+            kw2 = kw
+            if case.get("bounds_reeval") and has_bounds:
+                # bounds written as expressions of the data / context (lower_bound=x.min()) evaluate to other numbers on the
+                # follow-up vector: the recorded bounds stay in force
+                kw2 = dict(kw, lower_bound=float(np.nanmin(xn)) - 0.25, upper_bound=float(np.nanmax(xn)) + 0.25)
+                out.see("bounds_reevaluated_on_reuse")
+            Mn = call_spline(case, "bs", asint(xn), st2, kw2)
+        if list(st2["knots"]) != t or float(st2["lower_bound"]) != lo or float(st2["upper_bound"]) != hi:
+            out.fail("c12.state_retrained", f"{tag}: knots / bounds changed on reuse: {st2['knots']} ({st2['lower_bound']}, {st2['upper_bound']})")
         compare(Mn, xn, "reuse")
     except Exception as e:  # noqa: BLE001
         out.fail("c12.reuse_raised", f"{tag}: {type(e).__name__}: {str(e)[:200]}")
@@ -367,7 +374,7 @@ def gen_cubic(rng: random.Random, tier: str) -> dict:
     if as_int:
         xnew = [float(round(v)) for v in xnew] + [lo - 3.0, hi + 4.0]
     return {"fn": fn, "x": x, "kw": kw, "kind": kind, "xnew": xnew, "path": rng.choice(["direct", "direct", "mm"]), "as_int": as_int,
-            "ext_as_enum": rng.random() < 0.2}
+            "ext_as_enum": rng.random() < 0.2, "bounds_reeval": rng.random() < 0.4}
 
 
 def judge_cubic(case) -> Outcome:
@@ -477,9 +484,13 @@ def judge_cubic(case) -> Outcome:
     try:
         with quiet():
             st3 = dict(st)
-            Mn = call_spline(case, fn, asint(xn), st3, kw)
-        if list(st3["knots"]) != list(st["knots"]):
-            out.fail("c12.state_retrained", f"{tag}: knots changed on reuse")
+            kw3 = kw
+            if case.get("bounds_reeval") and "lower_bound" in kw:  # bounds written as expressions re-evaluate on the follow-up vector
+                kw3 = dict(kw, lower_bound=float(np.nanmin(xn)) - 0.25, upper_bound=float(np.nanmax(xn)) + 0.25)
+                out.see("bounds_reevaluated_on_reuse")
+            Mn = call_spline(case, fn, asint(xn), st3, kw3)
+        if list(st3["knots"]) != list(st["knots"]) or st3.get("lower_bound") != st.get("lower_bound") or st3.get("upper_bound") != st.get("upper_bound"):
+            out.fail("c12.state_retrained", f"{tag}: knots / bounds changed on reuse")
         if not center:
             Rn, _ = expected_free(xn)
             if Mn.shape != Rn.shape or not np.allclose(Mn, Rn, atol=1e-7 * max(1.0, float(np.nanmax(np.abs(Rn)))), rtol=1e-6, equal_nan=True):
